@@ -66,6 +66,9 @@ type glFunc struct {
 	Extra string
 	// Iter: iterator methods taking a callback (`r.Attrs(func(a slog.Attr) bool {…})`) -> the Lean list iterated over
 	Iter map[string]string
+	// RewritePrefix: like Rewrite, for a multi-line statement identified by the beginning of its text
+	// (e.g. the `switch v.Kind() {` that renders a leaf through the standard library = a model payload)
+	RewritePrefix map[string]string
 }
 
 type glUnit struct {
@@ -817,6 +820,14 @@ func (t *glTr) stmt(ind int, s ast.Stmt) {
 		}
 		return
 	}
+	for pre, rw := range t.fn.RewritePrefix {
+		if strings.HasPrefix(src, pre) {
+			for _, l := range strings.Split(rw, "\n") {
+				t.line(ind, "%s", l)
+			}
+			return
+		}
+	}
 	// `x = x.m(arg)` on a pointer the function walks with: Rewrite key "x = x.m($1)", `$1` = the translated argument
 	if as, ok := s.(*ast.AssignStmt); ok && as.Tok == token.ASSIGN && len(as.Lhs) == 1 && len(as.Rhs) == 1 {
 		if call, ok := as.Rhs[0].(*ast.CallExpr); ok && len(call.Args) == 1 {
@@ -1476,6 +1487,17 @@ func (t *glTr) assigned(nodes ...ast.Node) []string {
 				}
 			}
 			if st, ok := n.(ast.Stmt); ok {
+				for pre, rw := range t.fn.RewritePrefix {
+					if strings.HasPrefix(glSrc(st), pre) {
+						for _, l := range strings.Split(rw, "\n") {
+							f := strings.Fields(l)
+							if len(f) >= 2 && (f[1] == ":=" || f[1] == "←") {
+								add(f[0])
+							}
+						}
+						return false
+					}
+				}
 				if rw, ok := t.fn.Rewrite[glSrc(st)]; ok {
 					for _, l := range strings.Split(rw, "\n") {
 						f := strings.Fields(l)
@@ -2206,6 +2228,39 @@ func extractGoLean() {
 			{File: "logger/level.go", Name: "ValidLevel", Args: "(l : Int)", Ret: "Bool"},
 			{File: "logger/level.go", Name: "appendShortLevel", Args: "(buf : Bytes) (l : Int) (colorful : Bool)", Ret: "Bytes", Ptr: ptrBuf, Env: tables},
 			{File: "logger/nano_handler.go", Name: "appendNanoSource", Args: "(buf : Bytes) (file : Bytes) (line : Int)", Ret: "Bytes", Ptr: ptrBuf, Env: tables, Skip: frame},
+		},
+	})
+	// TrNano (supporting code; Props/C03b uses the Nano model as a third renderer): appendNanoValue (recursive),
+	// WithAttrs, Handle at the level of values
+	nh := map[string]string{
+		"slog.KindGroup": "true", "a.Value": "a", "h2.preformatted": "pre", "h.preformatted": "pre", "h2": "()", "h": "()",
+		"h.Options.colorful": "false", "h.Options.addSource": "addSource", "r.PC": "pc", "r.Level": "level", "r.Message": "msg",
+		"attrs": "attrs", "err": "()",
+	}
+	glTranslate(glUnit{
+		Module: "TrNano", NS: "Glb.Tr.Logger",
+		Imports: []string{"Glb.Go.LibNano", "Glb.Generated.TrLogger"},
+		Funcs: []glFunc{
+			{File: "logger/nano_handler.go", Name: "appendNanoValue", Rec: true,
+				Args: "(buf : Bytes) (v : Glb.NanoHandler.Attr) (colorful : Bool)", Ret: "Bytes",
+				Ptr: map[string]bool{"buf": true, "range-elems": true}, Env: nh,
+				Tuples: map[string][]string{"v.Kind()": {"(Glb.Go.LibNano.isGroup v)"}, "v.Group()": {"(Glb.Go.LibNano.groupOf v)"}},
+				Skip:          []string{"v = v.Resolve()"},
+				RewritePrefix: map[string]string{"switch v.Kind() {": "buf := buf ++ Glb.Go.LibNano.leafBytes v"}},
+			{File: "logger/nano_handler.go", Recv: "NanoHandler", Name: "WithAttrs", Lean: "Nano_WithAttrs", Args: "(fuel__ : Nat) (pre : Bytes) (attrs : List Glb.NanoHandler.Attr)", Ret: "(Bytes × Unit)",
+				Env: nh, Ptr: map[string]bool{"h2.preformatted": true, "range-elems": true}, Thread: []string{"pre"}, Skip: []string{"h2 := h.clone()"}},
+			{File: "logger/nano_handler.go", Recv: "NanoHandler", Name: "Handle", Lean: "Nano_Handle",
+				Args: "(fuel__ : Nat) (buf : Bytes) (addSource : Bool) (pre : Bytes) (time : Bytes) (level : Int) (pc : Int) (file : Bytes) (line : Int) (msg : Bytes) (attrs : List Glb.NanoHandler.Attr)",
+				Ret: "(Bytes × Unit)", Env: nh, Ptr: map[string]bool{"buf": true, "range-elems": true}, Thread: []string{"buf"},
+				Iter:   map[string]string{"r.Attrs": "attrs"},
+				Tuples: map[string][]string{"r.NumAttrs()": {"(Glb.Go.len attrs)"}},
+				Skip:   []string{"defer freeBuffer(buf)", "h.outMu.Lock()", "defer h.outMu.Unlock()"},
+				Rewrite: map[string]string{
+					"buf := newBuffer()":           "pure ()",
+					"appendDateTime(buf, r.Time)":  "buf := buf ++ time",
+					"appendNanoSource(buf, r.PC)":  "buf ← Glb.Tr.Logger.appendNanoSource buf file line",
+					"_, err := h.out.Write(*buf)":  "pure ()",
+				}},
 		},
 	})
 
